@@ -91,12 +91,19 @@ class GaussianMixture:
         best_params = None
         best_lower_bound = -np.inf
 
+        # A model-level random_state gets its own generator; the process-wide
+        # stream is never reseeded (that would make everything drawn after a
+        # fit independent of the caller's seed).
         if self.random_state is not None:
-            np.random.seed(self.random_state)
+            rng = np.random.RandomState(self.random_state)
+        else:
+            rng = np.random
 
         for init in range(self.n_init):
             # Initialize parameters
-            weights, means, covariances = self._initialize_parameters(X, sample_weight)
+            weights, means, covariances = self._initialize_parameters(
+                X, sample_weight, rng
+            )
 
             # EM iterations
             lower_bound = -np.inf
@@ -132,7 +139,7 @@ class GaussianMixture:
 
         return self
 
-    def _initialize_parameters(self, X, sample_weight):
+    def _initialize_parameters(self, X, sample_weight, rng=np.random):
         """Initialize GMM parameters using weighted k-means++."""
         n_samples, n_features = X.shape
 
@@ -141,7 +148,7 @@ class GaussianMixture:
 
         # First center: weighted random sample
         cumsum = np.cumsum(sample_weight)
-        r = np.random.rand() * cumsum[-1]
+        r = rng.rand() * cumsum[-1]
         means[0] = X[np.searchsorted(cumsum, r)]
 
         # Remaining centers
@@ -154,7 +161,7 @@ class GaussianMixture:
             probabilities /= np.sum(probabilities)
 
             cumsum = np.cumsum(probabilities)
-            r = np.random.rand() * cumsum[-1]
+            r = rng.rand() * cumsum[-1]
             means[k] = X[np.searchsorted(cumsum, r)]
 
         # Initialize responsibilities and compute initial parameters
